@@ -114,9 +114,26 @@ Definition dl_of (tab : list (dutyv * status)) (d : dutyv) : status :=
   | None => Scheduled
   end.
 
+(* The REAL deadliner (core.NewDeadliner over core.NewDutyDeadlineFunc) read mathematically, over Z without
+   wrap-around: times in nanoseconds since genesis; exit (4) and builder registration (6) never expire;
+   deadline = slot start + per-type duration + slotDuration/12; Add refuses a duty whose deadline is not
+   after now.  (The Go code computes slotDuration * slot in int64 nanoseconds, which wraps for slots beyond
+   ~2^63/slotDuration; no such slot passes the duty gater, which is consulted first.) *)
+Definition dl_real (now sd spe : Z) (d : dutyv) : status :=
+  let t := snd d in
+  if ((t =? 4) || (t =? 6))%Z then Exempt else
+  let dur := (if (t =? 1) || (t =? 7) then sd / 3
+              else if (t =? 2) || (t =? 9) then spe * sd
+              else if (t =? 8) || (t =? 11) then 2 * spe * sd
+              else sd)%Z in
+  if (sd * Z.of_N (fst d) + dur + sd / 12 <=? now)%Z then Expired else Scheduled.
+
 (* ctx.Err() is non-nil from the k-th poll on *)
 Definition ctx_of (k : option nat) (i : nat) : bool :=
   match k with Some k => Nat.leb k i | None => false end.
+
+Definition mkenv_real (keys : list N) (g : gdesc) (now sd spe : Z) (k : option nat) : cenv :=
+  {| e_keys := keys; e_gater := gater_of g; e_deadline := dl_real now sd spe; e_ctx := ctx_of k |}.
 
 Definition mkenv (keys : list N) (g : gdesc) (dl : list (dutyv * status)) (k : option nat) : cenv :=
   {| e_keys := keys; e_gater := gater_of g; e_deadline := dl_of dl; e_ctx := ctx_of k |}.
